@@ -504,6 +504,12 @@ func runHistory(h rhistory) (res renderOutcome) {
 				fail("C07", "a flush did not paint the latest view although it differs from what is on screen", fmt.Sprintf("%q", lastWritten), "no output")
 			}
 		}
+		if o.op != "f" && o.op != "st" && o.op != "title" && !eaRendered && len(written) > 48 {
+			// C19: the view is painted by the ticker's flush (and by stop, and by entering the alt screen
+			// when printed lines are pending), never by another operation: those write their own short
+			// control sequences only (the longest, entering the alt screen, has 21 bytes)
+			fail("C19", "an operation other than a flush painted (a render outside the frame ticker): `"+o.op+"`", "at most its own control sequences (<= 48 bytes)", fmt.Sprintf("%d bytes: %s", len(written), hexOf(written)))
+		}
 		if (o.op == "f" || o.op == "st") && !before.AltScreenActive && len(queued) > 0 && before.Buf != "" && !rendered {
 			// C14: a flush of a pending view prints the queued lines, also when the view itself
 			// is byte-identical to the one on screen
